@@ -171,7 +171,10 @@ def check(ck: Checker) -> None:
     _lints(ck, "C04.aliasing", "hashfile.transfer")
     from .transfer_common import check_claimed_attempted, check_missing_readonly
 
-    ck.floor("C04.allfiles", check_claimed_attempted(ck, m, "C04.allfiles"), 1, "pool-claiming statements in the per-directory loop")
+    n_claim = check_claimed_attempted(ck, m, "C04.allfiles")
+    if any(m.head.id in x.loops for x, _c in m.files_add):
+        # (when the per-directory body lives in a helper that was not inlined there is nothing to anchor on here)
+        ck.floor("C04.allfiles", n_claim, 1, "pool-claiming statements in the per-directory loop")
     check_missing_readonly(ck, m, "C04.guard")
     from . import round4 as _r4
 
